@@ -216,6 +216,8 @@ impl Ctx {
     }
 }
 
+pub static LAST_PANIC_GLOBAL: Mutex<Option<String>> = Mutex::new(None);
+
 thread_local! {
     static LAST_PANIC: std::cell::RefCell<Option<String>> = std::cell::RefCell::new(None);
 }
@@ -239,6 +241,9 @@ pub fn quiet_panics() {
         } else {
             "?".to_string()
         };
+        if let Ok(mut g) = LAST_PANIC_GLOBAL.lock() {
+            *g = Some(format!("{} @ {}", msg, loc));
+        }
         LAST_PANIC.with(|p| *p.borrow_mut() = Some(format!("{} @ {}", msg, loc)));
     }));
 }
